@@ -125,8 +125,9 @@ DEPS = {
     "C09": LAYOUT_VERBATIM,
     "C10": [("C18", {"C18-R3"}, "the reader consumes one input_event record per read() and returns every key record it reads")],
     "C12": [("C06", None, "release_all returns the mapper to rest")] + C01_ALL + C19_ALL + STEP_TABLE,
-    "C14": [("C13", {"C13-S1", "C13-S2", "C13-S3", "C13-S10"}, "alias-combination indices are in range by construction (reason of the reviewed ledger entries)"),
-            ("C01", {"C01-R6"}, "remove_mapping is only called with the index of a complete count-down sweep over active_mappings")],
+    "C14": [("C13", {"C13-S1", "C13-S2", "C13-S3", "C13-S5", "C13-S7", "C13-S8", "C13-S10"},
+             "alias-combination indices, definition counts >= 1 and from_table indices are in range by construction (the reasons of the reviewed ledger entries)"),
+            ("C01", {"C01-R4", "C01-R6"}, "remove_mapping is only called with the index of a complete count-down sweep over active_mappings and removes exactly that one entry")],
     "C19": [("C10", {"C10-R3"}, "the loop writes every non-empty step result exactly once, in order"),
             ("C12", {"C12-R1"}, "the mapper is stepped only while its output is being written (not in tablet mode)")],
 }
